@@ -158,7 +158,7 @@ def run(ck, prog):
     # ---- thorough: one level of nesting unrolled -----------------------------------------------
     if ck.tier == "thorough":
         unrolled(ck, cmp, C, res)
-        token_level(ck, cmp)
+        token_level(ck, cmp, C)
 
     # ---- R04.3 ---------------------------------------------------------------------------------
     types = ast_facts.ast_types(prog)
@@ -238,10 +238,10 @@ def unrolled(ck, cmp, C, res):
     ck.floor("R04.1", "context-dependence comparisons", n, 80)
 
 
-CODE_DEPTH, DOC_DEPTH = 15, 13
+CODE_DEPTH, DOC_DEPTH = 16, 14
 
 
-def token_level(ck, cmp):
+def token_level(ck, cmp, C):
     """R04.5: bounded exploration of the product of the two recursive transition networks on concrete token kinds
     (tdq.grammar_sim). Unlike R04.1/R04.2 it compares token strings, not parse trees: a phrase accepted through another
     derivation is accepted. Bound: call depth of the parser model / rule nesting of the documented grammar; string
@@ -257,19 +257,33 @@ def token_level(ck, cmp):
     ck.ob("R04.0", "token-level-complete", not ex.truncated, "exploration finished within the state limit (%d states)" % ex.nodes,
           msg="token-level exploration hit the state limit (fail closed)")
     ck.floor("R04.5", "product states explored", ex.nodes, 50000)
+    def inner(stack):
+        for k in reversed(stack):
+            if k in C:
+                return k
+        return "?"
     first = {}
+    count = {}
     for x in diffs:
-        k = (x["direction"], (x["code_stack"] or ["?"])[-1], (x["prefix"] or ["<start>"])[-1], x["token"])
-        first.setdefault(k, x)
-    for (direction, kind, prev, tok), x in sorted(first.items()):
-        sent = " ".join(x["prefix"] + ([x["token"]] if x["token"] != "<end>" else []) + x["completion"])
-        if direction == "code-only":
-            msg = ("token level: the parser accepts `%s` without a syntax error (innermost node %s) but no derivation of the "
-                   "documented grammar produces it; first undocumented token: %s after %s" % (sent, kind, tok, prev))
+        # parsed-only: the node the parser put the undocumented token into; documented-only: the documented rule whose
+        # terminal the token is, and the node the parser was in when it reported the error
+        if x["direction"] == "code-only":
+            k = (x["direction"], "-", inner(x["code_stack"]))
         else:
-            msg = ("token level: the documented grammar derives `%s` but the parser reports a syntax error at %s after %s "
-                   "(innermost node %s)" % (sent, tok, prev, kind))
-        ck.ob("R04.5", "%s:%s:%s . %s" % (direction, kind, prev, tok), False, msg=msg,
+            k = (x["direction"], "|".join(x.get("doc_via", [])) or "?", inner(x["code_stack"]))
+        first.setdefault(k, x)
+        count[k] = count.get(k, 0) + 1
+    for (direction, drule, kind), x in sorted(first.items()):
+        sent = " ".join(x["prefix"] + ([x["token"]] if x["token"] != "<end>" else []) + x["completion"])
+        at = "%s . %s" % (" ".join(x["prefix"][-3:]), x["token"])
+        if direction == "code-only":
+            msg = ("token level: the parser accepts `%s` without a syntax error but no derivation of the documented grammar "
+                   "produces it (documented rule being matched: %s; node being parsed: %s; diverges at `%s`; %d such points)"
+                   % (sent, drule, kind, at, count[(direction, drule, kind)]))
+        else:
+            msg = ("token level: the documented grammar derives `%s` but the parser reports a syntax error (documented rule: "
+                   "%s; node being parsed: %s; diverges at `%s`; %d such points)" % (sent, drule, kind, at, count[(direction, drule, kind)]))
+        ck.ob("R04.5", "%s:%s:%s" % (direction, drule, kind), False, msg=msg,
               extra={"sentence": sent, "prefix": x["prefix"], "token": x["token"], "doc_rules": x["doc_rules"]})
     ck.ob("R04.5", "explored", True, "%d product states, %d token steps, %d distinct divergence points"
           % (ex.nodes, ex.steps, len(first)))
